@@ -176,7 +176,8 @@ func judge(rep *mbt.Report, tr irhist.Transition, st *stats, source string) {
 	}
 }
 
-var reFuncPtr = regexp.MustCompile(`\)( addrspace\(\d+\))?\*$`)
+var reInitLine = regexp.MustCompile(`^@[\w.]+ = global (.*) (@[\w.]+)$`)
+var reAddrSpace = regexp.MustCompile(` addrspace\(\d+\)`)
 var reUseLine = regexp.MustCompile(`@h\.use\((.*) ([%@][\w.]+)\)`)
 
 // staleTypeOf classifies a text difference that consists in the type shown for a typed
@@ -192,13 +193,17 @@ func staleTypeOf(a, b irhist.Result) string {
 			continue
 		}
 		ma, mb := reUseLine.FindStringSubmatch(la[i]), reUseLine.FindStringSubmatch(lb[i])
+		if ma == nil || mb == nil {
+			// a global initialised with the object: its ContentType is a copy of the operand's type
+			ma, mb = reInitLine.FindStringSubmatch(la[i]), reInitLine.FindStringSubmatch(lb[i])
+		}
 		if ma == nil || mb == nil || ma[2] != mb[2] {
 			return ""
 		}
 		k := "type of global operand"
 		if strings.HasPrefix(ma[2], "%") {
 			k = "type of alloca operand"
-		} else if reFuncPtr.MatchString(ma[1]) {
+		} else if strings.HasSuffix(reAddrSpace.ReplaceAllString(ma[1], ""), ")*") {
 			k = "type of function operand"
 		}
 		if what != "" && what != k {
@@ -388,12 +393,16 @@ func Run(tier, replay string) {
 		rep.Extra["guard_"+label] = fmt.Sprint(t.Violated) + " violated as expected after " + fmt.Sprint(t.Distinct) + " states"
 		t.Cleanup()
 	}
-	guard("lazy_type", typesCfg, map[string]string{"EagerType": "FALSE"}, "IRState.cfg", "ObserverTransparent")
+	// (a type that is computed lazily *and never refreshed*: with a refresh that follows the fields the
+	// moment of the first Type() call no longer matters)
+	guard("lazy_type", typesCfg, map[string]string{"EagerType": "FALSE", "GlobalRefresh": `"never"`, "AllocaRefresh": `"never"`}, "IRState.cfg", "ObserverTransparent")
 	guard("header_before_assign", locals, map[string]string{"HeaderBeforeAssign": "TRUE"}, "IRState.cfg", "PrintTwiceSame,PrintFuncTwiceSame,PrintFuncIsPart,ObserverTransparent")
 	guard("md_one_pass", metadata, map[string]string{"MdVariant": `"one-pass"`}, "IRState.cfg", "ObserverTransparent")
 	guard("md_literal_ids", metadata, nil, "IRStateMdLiteral.cfg", "ObserverTransparentLiteral")
 	if tier == "thorough" {
 		// InstAlloca.Type() as written by 141f39c (refresh on AddrSpace only): counterexample 7 calls deep
+		// Global.Type() as written by 1644016 (refresh on AddrSpace only)
+		guard("global_refresh_addrspace_only", typesCfg, map[string]string{"GlobalRefresh": `"addrspace"`, "MaxCalls": "7"}, "IRState.cfg", "ObserverTransparent")
 		guard("alloca_refresh_addrspace_only", typesCfg, map[string]string{"AllocaRefresh": `"addrspace"`, "MaxCalls": "7"}, "IRState.cfg", "ObserverTransparent")
 	}
 
